@@ -704,7 +704,7 @@ class Evaluator:
                         outs.append(o)
                 return outs
             # statically known literal of length <= 4 : unroll
-            if it[0] in ("listlit", "tuplelit", "setlit") and len(it[1]) <= 4 and it[0] != "setlit":
+            if it[0] in ("listlit", "tuplelit", "setlit") and len(it[1]) <= 6 and it[0] != "setlit":
                 live = [s0]
                 for x in it[1]:
                     nxt = []
@@ -1353,6 +1353,10 @@ class Evaluator:
         if isinstance(e, ast.Compare):
             outs = []
             for s, vals in self._evals([e.left] + list(e.comparators), state, func):
+                bot = next((v_ for v_ in vals if v_[0] == "bottom"), None)
+                if bot is not None:
+                    outs.append((s, bot))  # an operand raised: so does the comparison
+                    continue
                 parts = []
                 for op, a, b in zip(e.ops, vals, vals[1:]):
                     parts.append(self.compare(op, a, b))
@@ -1373,7 +1377,7 @@ class Evaluator:
             return outs
         if isinstance(e, (ast.Tuple, ast.List, ast.Set)):
             kind = {ast.Tuple: "tuplelit", ast.List: "listlit", ast.Set: "setlit"}[type(e)]
-            return [(s, (kind, tuple(vals))) for s, vals in self._evals(e.elts, state, func)]
+            return [(s, next((v_ for v_ in vals if v_[0] == "bottom"), (kind, tuple(vals)))) for s, vals in self._evals(e.elts, state, func)]
         if isinstance(e, ast.Dict):
             outs = []
             keys = [k for k in e.keys]
